@@ -25,6 +25,9 @@ func (c *Ctx) modsum() *modsum.Analysis {
 	return c.ms
 }
 
+// PrepareSSA builds the SSA program now (before the syntax trees are normalised).
+func (c *Ctx) PrepareSSA() { c.modsum() }
+
 // ssaFunc finds the SSA function of a declared function/method.
 func (c *Ctx) ssaFunc(fi *load.FuncInfo) *ssa.Function {
 	return c.modsum().Prog.FuncValue(fi.Fn)
